@@ -95,6 +95,12 @@ theorem parsers_never_slice_off_a_boundary (input : List Char) (a : Sl) :
   rw [low_level_link_parser_refines, low_level_attr_parser_refines]
   exact ⟨by simp, by simp⟩
 
+/-- `Unquote::to_cow()` at the same level – `find` returns byte indices, `&str_ref[1..]` and `&body[..end]`
+panic off a character boundary – equals the model's `to_cow`, in every state of the iterator and for
+every remaining string; hence it never panics -/
+theorem low_level_to_cow_refines (u : Uq) : LinkLow.toCowLow u = .ok u.toCow :=
+  LinkLow.toCowLow_eq u
+
 /-- the slicing operations of the low-level model do panic off a boundary (`é` is two bytes) -/
 example : LinkLow.sliceTo ['é', 'x'] 1 = .panic ∧ LinkLow.sliceTo ['é', 'x'] 2 = .ok ['é'] ∧
     LinkLow.sliceFrom ['é', 'x'] 4 = .panic := by decide
